@@ -3,12 +3,17 @@ import SwcVerif.Props.C16Length
 import SwcVerif.Props.C16Pair
 import SwcVerif.Props.C16PairLoc
 import SwcVerif.Props.C16Asm
+import SwcVerif.Props.C16AsmGen
 #print axioms C16Asm.machine_eq_sub
 #print axioms C16Asm.assemble_eq
 #print axioms C16Asm.assemble_sorted
 #print axioms C16Asm.assemble_wf
 #print axioms C16Asm.assemble_length
 #print axioms C16Asm.branch_is_chain
+#print axioms RefineAsm.assemble_refines
+#print axioms C16Asm.generated_assemble_eq_model
+#print axioms C16Asm.generated_assemble_wf
+#print axioms C16Asm.generated_branch_is_chain
 #print axioms C16.cumdist_spec
 #print axioms C16.linspace_spec
 #print axioms C16.iso_step_le
